@@ -630,3 +630,62 @@ nesting of shape d (no empty level, no empty row, equal shapes at every level); 
         ("C16_nested_index", "build_index", "indexing the built array with a full multi-index returns the leaf element reached by following it"),
         ("C16_nested_wf", "build_wf", "the built array is well formed"),
     ])
+
+TABLE["C12programs"] = dict(
+    title="(whole programs) clones, drops and re-binding never change results",
+    imports="""From Coq Require Import List Arith Bool.
+From Corgi Require Import Lib.OptionMonad Model.Scalar Model.Arr Model.Ops Model.Engine Model.Program
+     Proofs.ProgramFacts Proofs.TagNat Proofs.Transparency.
+Import ListNotations.""",
+    intro="""[variant A L n n' p p' m]: the program p' is obtained from p by renaming pool slots through aliases (an operand
+replaced by a clone of it, the pass started from a clone of the result, a gradient read through a clone), by
+inserting right-only [IClone]s and by inserting right-only [IDrop]s of handles the rest of p reaches only through
+another alias (dropping a handle the program no longer names; re-binding is dropping the old handle).  [m] marks the
+matched instructions.  [C12_variant_observations]: if p does not panic then p' does not panic and the observations of
+the matched instructions coincide - literally for values, gradients, flags, losses and parameters; closure logs up to
+the (ghost) tag of the creating instruction.  Covered: every instruction except [ITakeVec] (Vec::from succeeds only
+for a sole owner, so it legitimately depends on the number of handles; counterexample by vm_compute in the file).""",
+    items=[
+        ("C12_variant_observations", "variant_observations", "whole-program observational equivalence"),
+        ("C12_one_step", "step_sim", "the one-step simulation, every instruction except ITakeVec"),
+        ("C12_clone_right", "clone_right", "a right-only clone preserves the simulation"),
+        ("C12_drop_right", "drop_right", "a right-only drop preserves the simulation"),
+        ("C12_select", "obs_match_select", "the matched observations of the variant are the original's"),
+        ("C12_instance", "ex_observations", "a concrete program with three clones and three drops"),
+    ])
+
+TABLE["C18loop"] = dict(
+    title="(training loop) once the model has moved on, the batch is sole owner of its buffer again",
+    imports="""From Coq Require Import List Arith Bool.
+From Corgi Require Import Lib.OptionMonad Model.Scalar Model.Arr Model.Ops Model.Engine Model.Program
+     Proofs.EngineDefs Proofs.HistoryInv Proofs.Ownership Proofs.ProgramFacts Proofs.TrainLoop Proofs.LoopRelease.
+Import ListNotations.""",
+    intro="""[batch_prog n b] = leaf x; leaf t; forward; backward; update.  [next_prog] = drop the forward result of the finished
+iteration (a Rust program lets `_result` go out of scope), create the next batch, forward.  For arbitrary layer stacks
+(dense or conv), activations, costs, stored gradients and earlier pool contents.""",
+    items=[
+        ("C18_iteration_reachability", "iteration_reachability", "after an iteration its forward nodes are reachable only through the output handle, its cost nodes from no root, parameters are leaves"),
+        ("C18_target_released", "target_released_after_backward", "the target is sole owner again as soon as backward returns"),
+        ("C18_batch_released", "batch_released", "after the next forward the previous batch and target are sole owners: Vec::from succeeds"),
+        ("C18_every_batch_released", "every_batch_released", "the same at every iteration of any run"),
+        ("C18_batch_still_held", "batch_still_held", "before the next forward a dense first layer still holds the batch (why 'moved on' matters)"),
+    ])
+
+TABLE["C01total"] = dict(
+    title="(existence) a backward pass on an API-built graph with a well-shaped seed never panics",
+    imports=CONC + """
+From Corgi Require Import Proofs.FwdCode Proofs.HistoryVC Proofs.NoPanic Proofs.NoPanicHistory.
+Import ListNotations.""",
+    intro="""All exactness theorems are conditional on [run_backward ... = Some]; these close that gap.  [nonscalar]: no rank-0
+arrays (they cannot be added); [graph_total_proved g]: every closure node satisfies its side condition
+[closure_side]: sum(k) with k <= rank, user closures on equal dimensions, matmul with both operands of rank >= 2 or
+the untransposed dot product (additive term broadcastable to the result).  Found while proving (Examples/
+NoPanicSanity.v, by vm_compute): matmul of two rank-1 arrays WITH a transposition flag is accepted by the forward
+operation (even for different lengths) and its backward closure panics; this form is outside every property (C05
+defines rank-1 operands only next to a rank >= 2 operand or untransposed) and is recorded in DESIGN.md section 15.""",
+    items=[
+        ("C01_backward_never_panics", "backward_total_proved", "store-level: good, value-consistent, non-scalar graph with closure side conditions => the pass succeeds"),
+        ("C01_history_backward_never_panics", "history_backward_total", "the same for the state reached by any program history"),
+        ("C01_every_closure_total", "closure_total_proved", "every built-in closure succeeds on a well-shaped delta and its outputs flatten to the children's dimensions"),
+        ("C01_guarded_engine_total", "guarded_total", "abstract engine: guarded totality of the operations implies the pass succeeds"),
+    ])
